@@ -73,7 +73,33 @@ theorem addLines3d_grows (st st' : State ℝ) (es : List (Pt3 ℝ × Pt3 ℝ)) (
     simp only [hm, Option.bind_eq_bind, Option.bind_some, Option.pure_def, Option.some.injEq] at h
     subst h; exact pushGroup_grows _ _
 theorem addLines2d_grows (st st' : State ℝ) (es : List (Pt2 ℝ × Pt2 ℝ)) (c : List Char)
-    (h : addLines2d st es c = some st') : Grows st st' := addLines3d_grows _ _ _ _ h
+    (h : addLines2d st es c = some st') : Grows st st' := by
+  unfold addLines2d at h
+  cases hm : es.mapM (fun x => match x with | (a, b) => edgeMesh2 st a b) with
+  | none => simp [hm] at h
+  | some ms =>
+    simp only [hm, Option.bind_eq_bind, Option.bind_some, Option.pure_def, Option.some.injEq] at h
+    subst h; exact pushGroup_grows _ _
+
+/-- a 2D edge is the 3D edge between the end points lifted to z = 0 (the source measures the cylinder's
+length in 2D; over the reals that is the 3D distance of the lifted points) -/
+theorem edgeMesh2_eq (st : State ℝ) (a b : Pt2 ℝ) : edgeMesh2 st a b = edgeMesh st (a.asPt3 0) (b.asPt3 0) := by
+  have hlen : (Pt2.sub b a).len = (Pt3.sub (b.asPt3 0) (a.asPt3 0)).len := by
+    simp [Pt2.len, Pt3.len, Pt2.len2, Pt3.len2, Pt2.dot, Pt3.dot, Pt2.sub, Pt3.sub, Pt2.asPt3]
+  unfold edgeMesh2 edgeMesh
+  rw [hlen]
+
+theorem mapM_congr {β γ : Type} (f g : β → Option γ) (l : List β) (h : ∀ x, f x = g x) : l.mapM f = l.mapM g := by
+  have : f = g := funext h
+  rw [this]
+
+/-- `add_lines2d` is `add_lines3d` of the lifted edges -/
+theorem addLines2d_eq (st : State ℝ) (es : List (Pt2 ℝ × Pt2 ℝ)) (c : List Char) :
+    addLines2d st es c = addLines3d st (es.map fun e => (e.1.asPt3 0, e.2.asPt3 0)) c := by
+  unfold addLines2d addLines3d
+  rw [List.mapM_map]
+  congr 1
+  exact mapM_congr _ _ _ (fun x => by obtain ⟨a, b⟩ := x; exact edgeMesh2_eq st a b)
 
 theorem bind_some {β γ : Type} {o : Option β} {f : β → Option γ} {y : γ} (h : o.bind f = some y) :
     ∃ x, o = some x ∧ f x = some y := by
@@ -171,7 +197,7 @@ theorem step_scene (st st' : State ℝ) (op : Op ℝ) (hop2 : ∀ cs, op ≠ .ch
   | pt2s ps c => simp only [step, Option.some.injEq] at h; subst h; simp [intoScad, addPt2s, pushGroup]
   | pt3s ps c => simp only [step, Option.some.injEq] at h; subst h; simp [intoScad, addPt3s, pushGroup]
   | lines2d es c =>
-    simp only [step, addLines2d, addLines3d, Option.bind_eq_bind, Option.pure_def] at h
+    simp only [step, addLines2d, Option.bind_eq_bind, Option.pure_def] at h
     obtain ⟨ms, _, h⟩ := bind_some h
     injection h with h; subst h; simp [intoScad, pushGroup]
   | lines3d es c =>
